@@ -280,9 +280,106 @@ def base_images(ctx, n):
     return imgs
 
 
+def _descending_directory_image(n):
+    """a valid image whose directory /D holds n files, with the records of /D rewritten in DESCENDING name order (what
+    another mastering tool, or a damaged sort, could produce); returns the image bytes"""
+    import io
+    import struct
+    import pycdlib
+    iso = pycdlib.PyCdlib()
+    iso.new(interchange_level=3)
+    iso.add_directory('/D')
+    for k in range(n):
+        iso.add_fp(io.BytesIO(b''), 0, '/D/F%06d.;1' % k)
+    out = io.BytesIO()
+    iso.write_fp(out)
+    rec = iso.get_record(iso_path='/D')
+    ext, dlen = rec.extent_location(), rec.get_data_length()
+    iso.close()
+    img = bytearray(out.getvalue())
+    area = bytes(img[ext * 2048:ext * 2048 + dlen])
+    recs, p = [], 0
+    while p < len(area):
+        ln = area[p]
+        if ln == 0:
+            p = (p // 2048 + 1) * 2048
+            continue
+        recs.append(area[p:p + ln])
+        p += ln
+    head, files = recs[:2], recs[2:]
+    files.reverse()
+    new, blk = bytearray(), bytearray()
+    for r in head + files:
+        if len(blk) + len(r) > 2048:
+            new += blk + bytes(2048 - len(blk))
+            blk = bytearray()
+        blk += r
+    new += blk + bytes(2048 - len(blk))
+    assert len(new) == dlen, (len(new), dlen)
+    img[ext * 2048:ext * 2048 + dlen] = new
+    return bytes(img)
+
+
+def _open_work(img):
+    """number of Python line events executed inside pycdlib while the image is opened (deterministic, unlike time)"""
+    import io
+    import sys
+    import pycdlib
+    count = [0]
+
+    def tracer(frame, event, arg):
+        if 'pycdlib' not in frame.f_code.co_filename:
+            return None
+
+        def local(frame, event, arg):
+            if event == 'line':
+                count[0] += 1
+            return local
+        return local
+    iso = pycdlib.PyCdlib()
+    sys.settrace(tracer)
+    try:
+        iso.open_fp(io.BytesIO(img))
+    finally:
+        sys.settrace(None)
+    iso.close()
+    return count[0]
+
+
+def work_proportion(ctx):
+    """'time and memory in proportion to the input': doubling the number of records of one directory must about double the
+    work of opening the image, whatever the order of the records"""
+    for order in ('ascending', 'descending'):
+        w = []
+        for n in (250, 500):
+            import io
+            img = _descending_directory_image(n)
+            if order == 'ascending':
+                import pycdlib
+                iso = pycdlib.PyCdlib()
+                iso.new(interchange_level=3)
+                iso.add_directory('/D')
+                for k in range(n):
+                    iso.add_fp(io.BytesIO(b''), 0, '/D/F%06d.;1' % k)
+                out = io.BytesIO()
+                iso.write_fp(out)
+                iso.close()
+                img = out.getvalue()
+            w.append(_open_work(img))
+        ratio = w[1] / max(1, w[0])
+        ctx.case(('open-work', order, round(ratio, 1)), True)
+        ctx.count('open-work:%s:ratio-x10:%d' % (order, int(ratio * 10)))
+        if ratio > 3.0:
+            ctx.violation('c15:open:work-quadratic:%s-directory' % order,
+                          'C15: opening an image with one directory of 500 records in %s name order executes %d lines of the library, with 250 records %d: '
+                          'the work grows with the square of the number of records (ratio %.1f for a doubled input)' % (order, w[1], w[0], ratio),
+                          {'order': order, 'records': [250, 500], 'lines': w})
+
+
 def run(ctx):
     common.proof_stage(ctx, MODULE, common.theorems_of(MODULE))
     common.setup_impl_path()
+    work_proportion(ctx)
     quick = ctx.tier == 'quick'
     rng = ctx.rng
     nimg = 24 if quick else 200
